@@ -42,6 +42,7 @@ class HMFMonitor:
         self.last_chi2 = None    # chi^2 of a.g after the most recent factor update
         self.last_err = 0.0      # bound on the rounding error of evaluating it
         self.nonneg_data = nonneg_data
+        self.direct = False      # astep()/gstep() called directly by the check: the iteration-level preconditions do not apply
         self.updates = {'astep': 0, 'gstep': 0, 'astepnn': 0, 'gstepnn': 0, 'normbase': 0}
 
     def seen(self, name):
@@ -91,6 +92,8 @@ def factors_before_update(self):
 
 # ---- preconditions of the a-updates (they open every iteration) -------------------------------------
 def components_have_unit_rms_on_entry(self):
+    if MON.direct:
+        return True
     MON.seen('components_have_unit_rms_on_entry')
     dev = float(np.max(np.abs(R.rms_rows(self.g) - 1.0)))
     MON.worst('rms_deviation', dev)
@@ -100,6 +103,8 @@ def components_have_unit_rms_on_entry(self):
 
 
 def chi2_not_increased_since_last_update(self):
+    if MON.direct:
+        return True
     MON.seen('chi2_not_increased_since_last_update')
     if MON.last_chi2 is None:
         return True
@@ -429,6 +434,9 @@ class C15(Check):
             'shape boundaries: computechi2 N == M (non-symmetric square), M+1, M+2, (N,1), 1x1, zero weights leaving exactly M / M+1 used rows; '
             'pcomp nobs == nvar, nvar +- 1; HMF with N == K, K+1, K == 1, M == K+1, K+2; pca_solve with nobj == nkeep, nkeep == 1, npix == nkeep+1, '
             'npix == nobj, nobj+1; '
+            'hmf_direct: astep/gstep/astepnn/gstepnn called directly on objects whose a, g were set (random, or from a solve), incl. pixels without '
+            'data in any spectrum for epsilon > 0 and spectra without data, exact-optimum steps also compared with an independent dense SVD '
+            'least-squares solve; hmf_large_n: 1000/1024/2000/2001/2048/4097 spectra solved twice with one seed under different global RNG states; '
             'pca_solve on float32 rank-K+noise spectra with masked pixels and fully masked columns, nkeep 1-4, niter 1-8, '
             'maxiter 0-2.  Non-trivial: computechi2 with >= 2 columns and >= 1 zero weight; pcomp with >= 2 variables; '
             'HMF with masked pixels and K >= 2; pca_solve with masked pixels and nkeep >= 2; distinct by hash of the input.')
@@ -466,6 +474,9 @@ class C15(Check):
         'hmf_shape:spectra_eq_K', 'hmf_shape:spectra_eq_K_plus_1', 'hmf_shape:K_eq_1', 'hmf_shape:pixels_eq_K_plus_1',
         'hmf_shape:pixels_eq_K_plus_2', 'pca_shape:spectra_eq_nkeep', 'pca_shape:nkeep_eq_1', 'pca_shape:pixels_eq_nkeep_plus_1',
         'pca_shape:pixels_eq_spectra', 'pca_shape:pixels_eq_spectra_plus_1',
+        'hmf_direct_steps', 'hmf_direct_dataless_column_gsteps', 'hmf_direct_dataless_spectrum_gsteps', 'hmf_direct_reference_optimum_checks',
+        'hmf_direct_from_solve', 'hmf_large_n:1000', 'hmf_large_n:1024', 'hmf_large_n:2000', 'hmf_large_n:2001', 'hmf_large_n:2048',
+        'hmf_large_n:4097', 'hmf_same_seed_pairs_above_2000_spectra',
         'pcomp_nobs_eq_nvar', 'pcomp_nobs_plus_1_nvar', 'pcomp_nobs_minus_1_nvar',
         'pcomp_two_variable_cases', 'hmf_seed_zero_cases', 'chi2_cancellation_would_show', 'chi2_cancellation_would_show_float32', 'hmf_reported_badness_checked',
         'chi2_zero_weight_cases', 'chi2_discriminating', 'pcomp_wide_cases', 'pca_projections', 'pca_masked_columns',
@@ -525,6 +536,8 @@ class C15(Check):
             'hmf_nonneg': 80 if q else 1200,
             'hmf_order': 72 if q else 1200,
             'hmf_boundary': 60 if q else 900,
+            'hmf_direct': 90 if q else 1400,
+            'hmf_large_n': 6 if q else 24,
             'pca_boundary': 60 if q else 900,
             'pca_solve': 240 if q else 3200,
         }
@@ -540,6 +553,10 @@ class C15(Check):
             return self._gen_pcomp(cls, rng, g)
         if cls == 'hmf_order':
             return self._gen_hmf_order(rng, g, i)
+        if cls == 'hmf_direct':
+            return self._gen_hmf_direct(rng, g, i)
+        if cls == 'hmf_large_n':
+            return self._gen_hmf_large_n(rng, g, i)
         if cls == 'hmf_boundary':
             return self._gen_hmf_boundary(rng, g, i)
         if cls == 'pca_boundary':
@@ -786,6 +803,52 @@ class C15(Check):
         return {'kind': 'hmf', 'shape': shape, 'spectra': _lists(s), 'invvar': _lists(w), 'K': K, 'n_iter': rng.randint(2, 5),
                 'seed': rng.randint(0, 2 ** 31 - 1), 'epsilon': rng.choice([None, None, 0.0, 0.1, 10.0]), 'nonnegative': nonneg,
                 'masked_edges': [0, 0], 'global_seeds': [rng.randint(0, 2 ** 31 - 1), rng.randint(0, 2 ** 31 - 1)]}
+
+    LARGE_N = (1000, 1024, 2000, 2001, 2048, 4097)
+
+    def _gen_hmf_large_n(self, rng, g, i):
+        """Numbers of spectra around implementation-typical caps (few pixels, K small, 1-2 iterations so that it stays cheap)."""
+        N = self.LARGE_N[i % len(self.LARGE_N)]
+        M = rng.randint(10, 14)
+        K = rng.choice([2, 2, 3])
+        s, w = _spectral_matrix(g, N, M, K, False, rng.choice([0.0, 0.02]), 'keep')
+        return {'kind': 'hmf', 'light': True, 'large_n': N, 'spectra': _lists(s), 'invvar': _lists(w), 'K': K, 'n_iter': rng.randint(1, 2),
+                'seed': rng.randint(0, 2 ** 31 - 1), 'epsilon': rng.choice([None, 0.1]), 'nonnegative': False,
+                'masked_edges': [0, 0], 'global_seeds': [rng.randint(0, 2 ** 31 - 1), rng.randint(0, 2 ** 31 - 1)]}
+
+    def _gen_hmf_direct(self, rng, g, i):
+        """astep()/gstep()/astepnn()/gstepnn() called directly, as public methods, on an object whose a and g were set by the
+        caller (random factors, or the factors of a previous solve) - including pixels without data in any spectrum
+        (epsilon > 0: the smoothness term still determines them) and spectra without data (astep may refuse)."""
+        N, M = rng.randint(8, 25), rng.randint(20, 60)
+        K = rng.randint(1, 4)
+        nonneg = rng.random() < 0.2
+        eps = rng.choice([None, 0.0, 0.1, 10.0, 1e3]) if i % 2 else rng.choice([0.1, 10.0, 1e3])
+        s, w = _spectral_matrix(g, N, M, K, nonneg, rng.choice([0.0, 0.05, 0.1]), rng.choice(['keep', 'zero']))
+        init = rng.choice(['random', 'from_solve'])
+        cols, rows = [], []
+        if not nonneg:
+            if eps is not None and eps > 0 and rng.random() < 0.7:
+                cols = sorted(rng.sample(range(M), rng.choice([1, 1, 2, 3])))
+                if rng.random() < 0.3:
+                    cols = sorted(set(cols) | {rng.choice([0, M - 1])})          # an end pixel: one neighbour only
+                if rng.random() < 0.3:
+                    j = rng.randint(0, M - 2)
+                    cols = sorted(set(cols) | {j, j + 1})                          # two adjacent dataless pixels
+            if rng.random() < 0.25:
+                rows = [rng.randrange(N)]
+        steps = rng.choice([['gstep'], ['astep'], ['gstep', 'astep'], ['astep', 'gstep'], ['gstep', 'gstep', 'astep']])
+        if cols and 'gstep' not in steps:
+            steps = ['gstep'] + steps
+        if nonneg:
+            steps = [x + 'nn' for x in steps]
+        a0 = g.normal(size=(N, K)) * np.sqrt(np.mean(s ** 2)) + (np.sqrt(np.mean(s ** 2)) if rng.random() < 0.5 else 0.0)
+        g0 = g.normal(size=(K, M)) + rng.choice([0.0, 1.0])
+        if nonneg:
+            a0, g0 = np.abs(a0) + 1e-3, np.abs(g0) + 1e-3
+        return {'kind': 'hmf_direct', 'spectra': _lists(s), 'invvar': _lists(w), 'K': K, 'epsilon': eps, 'nonnegative': nonneg,
+                'init': init, 'a0': _lists(a0), 'g0': _lists(g0), 'steps': steps, 'dataless_columns': cols, 'dataless_spectra': rows,
+                'seed': rng.randint(0, 2 ** 31 - 1)}
 
     PCA_SHAPES = ('spectra_eq_nkeep', 'nkeep_eq_1', 'pixels_eq_nkeep_plus_1', 'pixels_eq_spectra', 'pixels_eq_spectra_plus_1')
 
@@ -1203,6 +1266,11 @@ class C15(Check):
             np.random.set_state(state)
         (a1, g1, u1, c1), (a2, g2, u2, c2) = results
 
+        if case.get('large_n'):
+            out.count('hmf_large_n:%d' % case['large_n'])
+            if case['large_n'] > 2000:
+                out.count('hmf_same_seed_pairs_above_2000_spectra')
+
         def hmf_factory(ss, ww, seed):
             def make():
                 ins = {'spectra': ss.copy(), 'invvar': ww.copy()}
@@ -1214,12 +1282,13 @@ class C15(Check):
         state = np.random.get_state()
         before = dict(MON.evals)
         try:
-            live_objects(out, 'hmf', [
-                ('A', hmf_factory(s0, w0, case['seed'])),
-                ('B(same shape, other spectra, other seed)', hmf_factory(s0[::-1] * 1.3, w0[::-1] / 1.69, case['seed'] + 1)),
-                (('C(one pixel less)', hmf_factory(s0[:, 1:], w0[:, 1:], case['seed'])) if M >= K + 8 else
-                 ('C(one pixel more)', hmf_factory(np.hstack([s0, s0[:, :1] * 1.25]), np.hstack([w0, w0[:, :1]]), case['seed']))),
-            ], [None], exempt=(frozenset(('acoeff', 'a')), frozenset(('flux', 'g'))), volatile=('model',))
+            if not case.get('light'):
+                live_objects(out, 'hmf', [
+                    ('A', hmf_factory(s0, w0, case['seed'])),
+                    ('B(same shape, other spectra, other seed)', hmf_factory(s0[::-1] * 1.3, w0[::-1] / 1.69, case['seed'] + 1)),
+                    (('C(one pixel less)', hmf_factory(s0[:, 1:], w0[:, 1:], case['seed'])) if M >= K + 8 else
+                     ('C(one pixel more)', hmf_factory(np.hstack([s0, s0[:, :1] * 1.25]), np.hstack([w0, w0[:, :1]]), case['seed']))),
+                ], [None], exempt=(frozenset(('acoeff', 'a')), frozenset(('flux', 'g'))), volatile=('model',))
         except MonitorViolation as e:
             clause, msg, detail = MON.failure or ('contract', str(e), {})
             out.fail(clause, '%s [%s; live-objects solves]' % (msg, e), **detail)
@@ -1238,6 +1307,92 @@ class C15(Check):
         out.nontrivial = nmask > 0 and K >= 2
         out.info.update(N=N, M=M, K=K, n_iter=n_iter, epsilon=eps, nonnegative=nonneg, masked=nmask, updates=u1,
                         final_chi2=c1, chi2_per_dof=c1 / max(1, int((w0 > 0).sum()) - K * (N + M)))
+
+    # ---- HMF: the update steps called directly ---------------------------------------------------------
+    def _run_hmf_direct(self, case, out):
+        HMF = self.S1.HMF
+        s_full = np.array(case['spectra'], dtype='f8')
+        w_full = np.array(case['invvar'], dtype='f8')
+        K, eps, nonneg = case['K'], case['epsilon'], case['nonnegative']
+        cols, rows = case['dataless_columns'], case['dataless_spectra']
+        s, w = s_full.copy(), w_full.copy()
+        w[:, cols] = 0
+        w[rows, :] = 0
+        nonneg_data = bool((s >= 0).all())
+        before = dict(MON.evals)
+        state = np.random.get_state()
+        try:
+            if case['init'] == 'from_solve':
+                MON.reset_run(nonneg_data=nonneg_data)
+                hs = HMF(s_full.copy(), w_full.copy(), K=K, n_iter=2, seed=case['seed'], nonnegative=nonneg, epsilon=eps)
+                try:
+                    hs.solve()
+                except MonitorViolation as e:
+                    clause, msg, detail = MON.failure or ('contract', str(e), {})
+                    out.fail(clause, '%s [%s; solve() providing the start of the direct steps]' % (msg, e), **detail)
+                    return
+                a, gg = np.array(hs.a, copy=True), np.array(hs.g, copy=True)
+                out.count('hmf_direct_from_solve')
+            else:
+                a, gg = np.array(case['a0'], dtype='f8'), np.array(case['g0'], dtype='f8')
+            h = HMF(s, w, K=K, n_iter=2, seed=case['seed'], nonnegative=nonneg, epsilon=eps)
+            h.a, h.g = a, gg
+            MON.reset_run(nonneg_data=nonneg_data)
+            MON.direct = True
+            for k, step in enumerate(case['steps']):
+                label = 'direct call #%d: %s() (epsilon=%r, dataless pixels %r, dataless spectra %r, start %s)' % (
+                    k + 1, step, eps, cols, rows, case['init'])
+                a_in, g_in = np.array(h.a, copy=True), np.array(h.g, copy=True)
+                try:
+                    res = getattr(h, step)()
+                except MonitorViolation as e:
+                    clause, msg, detail = MON.failure or ('contract', str(e), {})
+                    out.fail(clause, '%s [%s; %s]' % (msg, e, label), **detail)
+                    return
+                except np.linalg.LinAlgError:
+                    if step == 'astep' and rows:
+                        # a spectrum without data leaves its coefficients undetermined: refusing is as good as any value
+                        out.count('hmf_direct_astep_dataless_spectrum_refused')
+                        break
+                    raise
+                res = np.asarray(res, dtype='f8')
+                out.count('hmf_direct_steps')
+                if step == 'gstep' and cols and eps is not None and eps > 0:
+                    out.count('hmf_direct_dataless_column_gsteps')
+                if step == 'gstep' and rows:
+                    out.count('hmf_direct_dataless_spectrum_gsteps')
+                # independent dense reference where the update is an exact optimum: astep always, gstep without smoothing
+                ref = None
+                if step == 'astep':
+                    ref = (R.hmf_ref_astep(s, w, g_in), g_in)
+                    got = (res, g_in)
+                    excess = R.hmf_solver_excess(w, g_in, res, 'a')
+                elif step == 'gstep' and not (eps is not None and eps > 0):
+                    ref = (a_in, R.hmf_ref_gstep(s, w, a_in))
+                    got = (a_in, res)
+                    excess = R.hmf_solver_excess(w, a_in, res, 'g', eps)
+                if ref is not None:
+                    cr = R.hmf_chi2(s, w, *ref)
+                    cg = R.hmf_chi2(s, w, *got)
+                    err = (R.hmf_objective_eval_error(s, w, ref[0], ref[1], None) + R.hmf_objective_eval_error(s, w, got[0], got[1], None)
+                           + excess)
+                    allow = TOL_MONO * abs(cr) + MONO_EVAL * err + np.finfo(float).tiny
+                    MON.worst('direct_step_above_reference_optimum/allowed', max((cg - cr) / allow, 0.0))
+                    out.expect(cg - cr <= allow, 'a-optimum' if step == 'astep' else 'g-optimum',
+                               '%s: chi-square %.17g of the returned update exceeds the optimum %.17g of an independent dense '
+                               'least-squares solve (allowed %.3g)' % (label, cg, cr, allow))
+                    out.count('hmf_direct_reference_optimum_checks')
+                if step.startswith('astep'):
+                    h.a = res
+                else:
+                    h.g = res
+        finally:
+            MON.direct = False
+            np.random.set_state(state)
+            self._flush_contract_counters(out, before)
+        out.nontrivial = K >= 2 and (bool(cols) or int((w_full == 0).sum()) > 0)
+        out.info.update(N=s.shape[0], M=s.shape[1], K=K, epsilon=eps, steps=case['steps'], init=case['init'], dataless_columns=cols,
+                        dataless_spectra=rows)
 
     # ---- HMF: same seed, different call orderings ------------------------------------------------------
     def _run_hmf_order(self, case, out):
